@@ -400,6 +400,9 @@ def run_shard(desc) -> Acc:
 
     logging.disable(logging.CRITICAL)
     acc = Acc()
+    from ..contracts import install_ash_contracts
+
+    install_ash_contracts(acc)
     cases = gen_cases(desc["tier"], desc["seed"])
     # long runs first in every shard so that no shard ends with a long tail
     idx = [i for i in range(len(cases)) if i % desc["n"] == desc["k"]]
